@@ -106,6 +106,8 @@ type Encoder struct {
 	usedContracts map[string]bool
 	usedStdlib    map[string]bool
 	monitor    monitorHooks
+	held       []heldMonitor
+	lockSites, unlockSites []lockSite
 	primary    bool
 	dual       bool
 	wtSeen     map[string]bool
